@@ -8,6 +8,14 @@ from dimarray.tools import is_DimArray
 from .align import  align_dims, align as align_axes
 from .axes import Axes
 
+def _as_operand(o):
+    """ the second operand as numpy takes it: python scalars as they are (an array made of them
+    would count as a float64 / int64 array and widen float32 or small integer values)
+    """
+    if isinstance(o, (bool, int, float, complex)):
+        return o
+    return np.array(o)
+
 def operation(func, o1, o2, reindex=True, broadcast=True, constructor=None):
     """ binary operation involving a DimArray objects
 
@@ -33,14 +41,14 @@ def operation(func, o1, o2, reindex=True, broadcast=True, constructor=None):
     if not is_DimArray(o2): # isinstance
         if np.ndim(o2) > np.ndim(o1):
             raise ValueError("bad input: second operand's dimensions not documented")
-        res = func(o1.values, np.array(o2))
+        res = func(o1.values, _as_operand(o2))
         return constructor(res, o1.axes)
 
     # check for first operand (reverse operations)
     elif not is_DimArray(o1): # isinstance
         if np.ndim(o1) > np.ndim(o2):
             raise ValueError("bad input: second operand's dimensions not documented")
-        res = func(np.array(o1), o2.values)
+        res = func(_as_operand(o1), o2.values)
         return constructor(res, o2.axes)
 
     # both objects are dimarrays
